@@ -8,7 +8,7 @@ import (
 
 // C04.T — Sequence.Truncate never writes into its operand (DESIGN §5 C04.T).
 //
-//zx:harness prop=C04 id=C04.T tier=quick env=sum shard=res:2,nA:4 thorough.shard=res:3,nA:6 N=3 thorough.N=5 thorough.nres=3
+//zx:harness prop=C04 id=C04.T tier=quick env=sum shard=res:2,nA:4 N=3 thorough.N=5 thorough.nres=3 thorough.shard=res:3,nA:6
 func zxC04Truncate() {
 	res := zxRes()
 	base := zxBase(res)
